@@ -180,6 +180,21 @@ func runC18(c *Ctx) {
 			call(ins, oe)
 		})
 	}
+	// previous transaction ids that agree everywhere but in two neighbouring bytes, in opposite directions (every
+	// position of the 32-byte reversal matters, the middle pair included)
+	for pos := 0; pos < 31; pos++ {
+		if !c.Thorough() && pos%5 != int(c.Seed)%5 && pos != 15 {
+			continue
+		}
+		ha, hb := make([]byte, 32), make([]byte, 32)
+		ha[pos], ha[pos+1] = 1, 0
+		hb[pos], hb[pos+1] = 0, 1
+		a := map[string]interface{}{"hash": ints(ha), "idx": w32(0), "script": ints([]byte{1}), "seq": w32(1)}
+		b := map[string]interface{}{"hash": ints(hb), "idx": w32(0), "script": ints([]byte{2}), "seq": w32(2)}
+		oe := []interface{}{map[string]interface{}{"value": ints(mkVal(1)), "script": ints([]byte{1})}}
+		call([]interface{}{a, b}, oe)
+		call([]interface{}{b, a}, oe)
+	}
 	// outputs with equal amounts and scripts of different lengths that are not prefixes of each other
 	for set := 0; set < c.Pick(4, 24); set++ {
 		scs := [][]byte{{0x76, 0xa9, 0x14, 1, 2, 3}, {0xa9, 0x14, 9}, {0x76}, {0xa9, 0x14, 9, 0}, {0x00, 0xff, 0xff, 0xff, 0xff}, {0xef, 1}, {0xee}}
